@@ -8,6 +8,7 @@
 mod common;
 mod deleg;
 mod fmtleg;
+mod history;
 mod jsonleg;
 mod prng;
 mod serleg;
@@ -74,8 +75,54 @@ impl Case {
     }
 }
 
-/// All cases of run `index` under base seed `base`: a pure function of the two.
-pub fn generate_run(base: u64, index: u64, st: &mut values::GenStats) -> (values::Val, Vec<Case>) {
+/// One checked operation together with the history performed before it.
+#[derive(Clone, Debug, PartialEq)]
+pub struct Step {
+    pub history: Vec<history::HistOp>,
+    pub case: Case,
+}
+
+impl Step {
+    pub fn plain(case: Case) -> Self {
+        Step { history: Vec::new(), case }
+    }
+    /// Perform the history (results ignored, panics reported), then the checked operation.
+    pub fn execute(&self) -> LegReport {
+        let mut pre = Vec::new();
+        for op in &self.history {
+            if let Err(msg) = history::perform(op) {
+                pre.push(viol("PANIC", format!("history operation {:?} panicked: {msg}", op)));
+            }
+        }
+        let mut rep = self.case.execute();
+        if !self.history.is_empty() {
+            rep.probes.hit("history_before_checked_operation");
+            rep.probes.add("history_operations", self.history.len() as u64);
+            rep.sig.u64(self.history.len() as u64);
+        }
+        pre.extend(rep.violations);
+        rep.violations = pre;
+        rep
+    }
+    pub fn shrink(&self) -> Vec<Step> {
+        let mut out = Vec::new();
+        if !self.history.is_empty() {
+            out.push(Step { history: Vec::new(), case: self.case.clone() });
+            for i in 0..self.history.len() {
+                let mut h = self.history.clone();
+                h.remove(i);
+                out.push(Step { history: h, case: self.case.clone() });
+            }
+        }
+        for c in self.case.shrink() {
+            out.push(Step { history: self.history.clone(), case: c });
+        }
+        out
+    }
+}
+
+/// All steps of run `index` under base seed `base`: a pure function of the two.
+pub fn generate_run(base: u64, index: u64, st: &mut values::GenStats) -> (values::Val, Vec<Step>) {
     let mut r = Rng::new(run_seed(base, index));
     let v = values::gen_value(&mut r, st);
     let o = values::gen_value(&mut r, st);
@@ -88,7 +135,19 @@ pub fn generate_run(base: u64, index: u64, st: &mut values::GenStats) -> (values
         Case::JsonRead(jsonleg::generate_read(&mut r, v.hi, v.lo, other)),
         Case::Toml(tomlleg::generate(&mut r, v.hi, v.lo, other)),
     ];
-    (v, cases)
+    // histories are drawn after all cases so that adding them did not disturb the cases' own draws
+    let steps = cases
+        .into_iter()
+        .map(|case| {
+            let spec = match &case {
+                Case::Fmt(c) => Some((c.tr, c.plus, c.prec)),
+                _ => None,
+            };
+            let history = history::generate(&mut r, case.leg(), v.hi, v.lo, other, spec);
+            Step { history, case }
+        })
+        .collect();
+    (v, steps)
 }
 
 // ---------------------------------------------------------------- known findings
@@ -149,7 +208,7 @@ struct BatchStats {
     known_hits: BTreeMap<usize, u64>,
     samples: BTreeMap<(usize, bool), (u64, serde_json::Value)>,
     /// lowest failing run: index -> (leg, case, violations)
-    first_fail: Option<(u64, Vec<(usize, Case, Vec<Violation>)>)>,
+    first_fail: Option<(u64, Vec<(usize, Step, Vec<Violation>)>)>,
     harness_errors: Vec<String>,
 }
 
@@ -210,12 +269,69 @@ enum Kind {
     ThinLattice,
 }
 
+impl Kind {
+    fn name(self) -> &'static str {
+        match self {
+            Kind::Random => "random",
+            Kind::Sweep => "sweep",
+            Kind::ThinLattice => "thin_lattice",
+        }
+    }
+    fn parse(s: &str) -> Option<Kind> {
+        match s {
+            "random" => Some(Kind::Random),
+            "sweep" => Some(Kind::Sweep),
+            "thin_lattice" => Some(Kind::ThinLattice),
+            _ => None,
+        }
+    }
+}
+
+fn steps_of(kind: Kind, base: u64, index: u64, gen: &mut values::GenStats) -> (values::Val, Vec<Step>) {
+    match kind {
+        Kind::Random => generate_run(base, index, gen),
+        Kind::Sweep => {
+            let (v, cs) = sweep::sweep_cases(base, index, gen);
+            (v, cs.into_iter().map(Step::plain).collect())
+        }
+        Kind::ThinLattice => {
+            let (v, cs) = sweep::thin_lattice_cases(base, index, gen);
+            (v, cs.into_iter().map(Step::plain).collect())
+        }
+    }
+}
+
+/// A history expressed as a window of whole runs executed in order on one
+/// thread of a fresh process: the reproduction of last resort for a violation
+/// that depends on state left behind by earlier operations.
+#[derive(Clone, Debug, Serialize, Deserialize, PartialEq)]
+struct SequenceSpec {
+    base_seed: u64,
+    kind: String,
+    from: u64,
+    to: u64,
+}
+
+/// Execute runs `from..=to` in order on this thread; first violation not covered by a known finding.
+fn run_sequence(spec: &SequenceSpec, known: &KnownFindings) -> Option<(u64, usize, Violation)> {
+    let kind = Kind::parse(&spec.kind)?;
+    let mut gen = values::GenStats::default();
+    for i in spec.from..=spec.to {
+        let (_, steps) = steps_of(kind, spec.base_seed, i, &mut gen);
+        for step in steps {
+            let leg = step.case.leg();
+            for v in step.execute().violations {
+                if v.class != "HARNESS" && known.matches(leg, &v).is_none() {
+                    return Some((i, leg, v));
+                }
+            }
+        }
+    }
+    None
+}
+
 fn run_one(base: u64, index: u64, known: &KnownFindings, st: &mut BatchStats, stop_after: &AtomicU64, kind: Kind) {
-    let (val, cases) = match kind {
-        Kind::Random => generate_run(base, index, &mut st.gen),
-        Kind::Sweep => sweep::sweep_cases(base, index, &mut st.gen),
-        Kind::ThinLattice => sweep::thin_lattice_cases(base, index, &mut st.gen),
-    };
+    let (val, cases): (values::Val, Vec<Step>) = steps_of(kind, base, index, &mut st.gen);
     let sweep = kind != Kind::Random;
     if kind == Kind::ThinLattice {
         st.lattice_cases += cases.len() as u64;
@@ -228,10 +344,10 @@ fn run_one(base: u64, index: u64, known: &KnownFindings, st: &mut BatchStats, st
     st.vclass[val.class as usize] += 1;
     let mut run_hash = Hash64::default();
     run_hash.u64(index);
-    let mut fails: Vec<(usize, Case, Vec<Violation>)> = Vec::new();
-    for case in cases {
-        let leg = case.leg();
-        let rep = case.execute();
+    let mut fails: Vec<(usize, Step, Vec<Violation>)> = Vec::new();
+    for step in cases {
+        let leg = step.case.leg();
+        let rep = step.execute();
         st.legs += 1;
         st.steps += rep.steps;
         if rep.faulted {
@@ -256,7 +372,8 @@ fn run_one(base: u64, index: u64, known: &KnownFindings, st: &mut BatchStats, st
                         serde_json::json!({
                             "run_index": index,
                             "value_class": values::VCLASS_NAMES[val.class as usize],
-                            "case": serde_json::to_value(&case).unwrap_or(serde_json::Value::Null),
+                            "history": serde_json::to_value(&step.history).unwrap_or(serde_json::Value::Null),
+                            "case": serde_json::to_value(&step.case).unwrap_or(serde_json::Value::Null),
                             "faults_fired": rep.faults_fired.0.keys().collect::<Vec<_>>(),
                             "seam_events": rep.steps,
                             "outcome": rep.outcome,
@@ -278,7 +395,7 @@ fn run_one(base: u64, index: u64, known: &KnownFindings, st: &mut BatchStats, st
                 }
             }
             if !unknown.is_empty() {
-                fails.push((leg, case, unknown));
+                fails.push((leg, step, unknown));
             }
         }
     }
@@ -344,12 +461,21 @@ struct ReplayFile {
     run_index: u64,
     minimised: bool,
     shrink_steps: u32,
+    /// operations performed (on related values, results ignored) before the checked case
+    #[serde(default)]
+    history: Vec<history::HistOp>,
     case: Case,
     /// for `De` cases: the damaged record as delivered (derived from `case`, informational)
     #[serde(default, skip_serializing_if = "Option::is_none")]
     delivered_record: Option<serde_json::Value>,
     #[serde(default, skip_serializing_if = "Option::is_none")]
     delivered_bytes: Option<String>,
+    /// when present, the reproduction is this window of whole runs (executed in order on one
+    /// thread of a fresh process); `case` is then only the operation that failed at the end of it
+    #[serde(default, skip_serializing_if = "Option::is_none")]
+    sequence: Option<SequenceSpec>,
+    #[serde(default)]
+    original_history: Vec<history::HistOp>,
     original_case: Case,
 }
 
@@ -357,16 +483,17 @@ fn has_class(rep: &LegReport, class: &str) -> Option<Violation> {
     rep.violations.iter().find(|v| v.class == class).cloned()
 }
 
-fn minimise(case: &Case, class: &str) -> (Case, u32) {
+fn minimise(case: &Step, class: &str) -> (Step, u32) {
     let mut cur = case.clone();
     let mut steps = 0u32;
     let mut execs = 0u32;
     // never revisit a case: shrink candidates are "simpler" only informally
     let mut seen: BTreeSet<String> = BTreeSet::new();
-    seen.insert(serde_json::to_string(&cur).unwrap_or_default());
+    let key = |s: &Step| format!("{}|{}", serde_json::to_string(&s.history).unwrap_or_default(), serde_json::to_string(&s.case).unwrap_or_default());
+    seen.insert(key(&cur));
     'outer: loop {
         for cand in cur.shrink() {
-            if !seen.insert(serde_json::to_string(&cand).unwrap_or_default()) {
+            if !seen.insert(key(&cand)) {
                 continue;
             }
             execs += 1;
@@ -408,7 +535,35 @@ fn replay(path: &Path, known: &KnownFindings) -> i32 {
             return 2;
         }
     };
-    let rep = rf.case.execute();
+    if let Some(spec) = &rf.sequence {
+        println!(
+            "replay {}: window of runs {}..={} (kind {}, base seed {}) on one thread, recorded class={}",
+            path.display(),
+            spec.from,
+            spec.to,
+            spec.kind,
+            spec.base_seed,
+            rf.class
+        );
+        return match run_sequence(spec, known) {
+            Some((i, leg, v)) => {
+                println!("  run {i} leg {}: {}: {}", LEG_NAMES[leg], v.class, v.detail);
+                if i == spec.to && v.class == rf.class {
+                    println!("REPRODUCED class={} detail_identical={}", v.class, v.detail == rf.detail);
+                } else {
+                    println!("REPRODUCED-DIFFERENTLY class={} at run {i} (recorded: class {} at run {})", v.class, rf.class, spec.to);
+                }
+                println!("VIOLATION property={PROPERTY} replay={}", path.display());
+                1
+            }
+            None => {
+                println!("NOT-REPRODUCED class={} (the recorded violation does not occur on this tree)", rf.class);
+                0
+            }
+        };
+    }
+    let step = Step { history: rf.history.clone(), case: rf.case.clone() };
+    let rep = step.execute();
     println!("replay {}: leg={} recorded class={}", path.display(), LEG_NAMES[rf.case.leg()], rf.class);
     println!("outcome: {}", rep.outcome);
     let mut code = 0;
@@ -705,6 +860,8 @@ struct Args {
     summary_only: Option<PathBuf>,
     /// summaries of secondary configurations to embed in the evidence
     merge_summaries: Vec<PathBuf>,
+    /// `--replay-sequence <base> <kind> <from> <to>`: run that window on one thread and report
+    replay_sequence: Option<SequenceSpec>,
 }
 
 fn parse_args() -> Result<Args, String> {
@@ -727,6 +884,7 @@ fn parse_args() -> Result<Args, String> {
         config_label: None,
         summary_only: None,
         merge_summaries: Vec::new(),
+        replay_sequence: None,
     };
     let mut it = std::env::args().skip(1);
     while let Some(x) = it.next() {
@@ -748,6 +906,13 @@ fn parse_args() -> Result<Args, String> {
             "--config-label" => a.config_label = Some(val("--config-label")?),
             "--summary-only" => a.summary_only = Some(PathBuf::from(val("--summary-only")?)),
             "--merge-summary" => a.merge_summaries.push(PathBuf::from(val("--merge-summary")?)),
+            "--replay-sequence" => {
+                let base_seed = val("--replay-sequence")?.parse().map_err(|e| format!("--replay-sequence base: {e}"))?;
+                let kind = val("--replay-sequence")?;
+                let from = val("--replay-sequence")?.parse().map_err(|e| format!("--replay-sequence from: {e}"))?;
+                let to = val("--replay-sequence")?.parse().map_err(|e| format!("--replay-sequence to: {e}"))?;
+                a.replay_sequence = Some(SequenceSpec { base_seed, kind, from, to });
+            }
             "C20" => {}
             other => return Err(format!("unknown argument {other}")),
         }
@@ -783,20 +948,21 @@ fn selftest(a: &Args, known: &KnownFindings) -> i32 {
         for (x, y) in c1.iter().zip(&c2) {
             let (r1, r2) = (x.execute(), y.execute());
             if r1.log.finish() != r2.log.finish() || r1.violations != r2.violations || r1.sig.finish() != r2.sig.finish() {
-                println!("SELFTEST FAIL: execution of run {i} leg {} is not deterministic", LEG_NAMES[x.leg()]);
+                println!("SELFTEST FAIL: execution of run {i} leg {} is not deterministic", LEG_NAMES[x.case.leg()]);
                 return 2;
             }
-            // replay-file round trip: serialise the case, parse it, execute: same log
-            let js = serde_json::to_string(x).unwrap();
-            let back: Case = match serde_json::from_str(&js) {
-                Ok(b) => b,
-                Err(e) => {
-                    println!("SELFTEST FAIL: case does not survive its replay encoding: {e}\n{js}");
+            // replay-file round trip: serialise the case and its history, parse them, execute: same log
+            let js = serde_json::to_string(&x.case).unwrap();
+            let hs = serde_json::to_string(&x.history).unwrap();
+            let back: Step = match (serde_json::from_str::<Case>(&js), serde_json::from_str::<Vec<history::HistOp>>(&hs)) {
+                (Ok(c), Ok(h)) => Step { history: h, case: c },
+                (a, b) => {
+                    println!("SELFTEST FAIL: case does not survive its replay encoding: {:?} {:?}\n{js}\n{hs}", a.err(), b.err());
                     return 2;
                 }
             };
             if back != *x || back.execute().log.finish() != r1.log.finish() {
-                println!("SELFTEST FAIL: replayed case of run {i} leg {} behaves differently", LEG_NAMES[x.leg()]);
+                println!("SELFTEST FAIL: replayed case of run {i} leg {} behaves differently", LEG_NAMES[x.case.leg()]);
                 return 2;
             }
         }
@@ -870,6 +1036,68 @@ fn selftest(a: &Args, known: &KnownFindings) -> i32 {
     0
 }
 
+/// Spawn a fresh process that runs `from..=to` on one thread; returns the first failure it reports.
+fn spawn_sequence(a: &Args, base: u64, kind: Kind, from: u64, to: u64) -> Option<(u64, String, String, String)> {
+    let exe = std::env::current_exe().ok()?;
+    let out = std::process::Command::new(exe)
+        .args([
+            "--verif-dir",
+            a.verif_dir.to_str()?,
+            "--replay-sequence",
+            &base.to_string(),
+            kind.name(),
+            &from.to_string(),
+            &to.to_string(),
+        ])
+        .output()
+        .ok()?;
+    let so = String::from_utf8_lossy(&out.stdout);
+    let line = so.lines().find(|l| l.starts_with("SEQ-FAIL "))?;
+    let field = |name: &str| -> Option<String> {
+        let start = line.find(&format!("{name}="))? + name.len() + 1;
+        let rest = &line[start..];
+        Some(if name == "detail" { rest.to_string() } else { rest.split(' ').next().unwrap_or("").to_string() })
+    };
+    Some((field("run")?.parse().ok()?, field("leg")?, field("class")?, field("detail")?))
+}
+
+/// Find a window of runs ending at or before `idx` that fails in a fresh single-threaded process,
+/// and shrink it from the front.
+fn find_sequence(base: u64, kind: Kind, idx: u64, a: &Args) -> Option<(SequenceSpec, usize, Violation)> {
+    // growing windows ending at idx; the first failure inside a window defines its end
+    let mut found = None;
+    for back in [0u64, 1, 15, 255, 4095, u64::MAX] {
+        let from = idx.saturating_sub(back);
+        if let Some(f) = spawn_sequence(a, base, kind, from, idx) {
+            found = Some((from, f));
+            break;
+        }
+        if from == 0 {
+            break;
+        }
+    }
+    let (mut from, (to, _leg, class, detail)) = found?;
+    // shrink from the front (bisection; the result is verified, monotonicity is not assumed)
+    let (mut lo, mut hi) = (from, to);
+    while lo < hi {
+        let mid = lo + (hi - lo + 1) / 2;
+        match spawn_sequence(a, base, kind, mid, to) {
+            Some((j, _, c, _)) if j == to && c == class => lo = mid,
+            _ => hi = mid - 1,
+        }
+    }
+    from = lo;
+    // final verification in a fresh process
+    match spawn_sequence(a, base, kind, from, to) {
+        Some((j, l, c, d)) if j == to && c == class => {
+            let leg = LEG_NAMES.iter().position(|n| *n == l).unwrap_or(0);
+            let _ = &detail;
+            Some((SequenceSpec { base_seed: base, kind: kind.name().into(), from, to }, leg, Violation { class: c, detail: d }))
+        }
+        _ => None,
+    }
+}
+
 fn main() {
     let a = match parse_args() {
         Ok(a) => a,
@@ -893,6 +1121,18 @@ fn main() {
     if let Some(p) = &a.replay {
         std::process::exit(replay(p, &known));
     }
+    if let Some(spec) = &a.replay_sequence {
+        match run_sequence(spec, &known) {
+            Some((i, leg, v)) => {
+                println!("SEQ-FAIL run={i} leg={} class={} detail={}", LEG_NAMES[leg], v.class, v.detail);
+                std::process::exit(1);
+            }
+            None => {
+                println!("SEQ-CLEAN");
+                return;
+            }
+        }
+    }
     if a.digest_only {
         let b = run_batch(a.seed, a.runs.unwrap_or(20_000), a.workers, &known);
         println!("{:016x}", b.digest);
@@ -910,7 +1150,7 @@ fn main() {
     println!("VERIF_SEED={} tier={} base_seeds={} runs_per_seed={} workers={}", a.seed, a.tier, seeds.len(), runs, a.workers);
     let t0 = Instant::now();
     let mut total = BatchStats::default();
-    let mut failing: Option<(u64, u64, Vec<(usize, Case, Vec<Violation>)>)> = None;
+    let mut failing: Option<(u64, u64, Vec<(usize, Step, Vec<Violation>)>, Kind)> = None;
     for (k, s) in seeds.iter().enumerate() {
         let b = run_batch(*s, runs, a.workers, &known);
         let ff = b.first_fail.clone();
@@ -919,7 +1159,7 @@ fn main() {
             eprintln!("progress: base seed {}/{} ({}) done, {} runs so far, {:.0}s", k + 1, seeds.len(), s, total.runs, t0.elapsed().as_secs_f64());
         }
         if let Some((idx, fails)) = ff {
-            failing = Some((*s, idx, fails));
+            failing = Some((*s, idx, fails, Kind::Random));
             break;
         }
     }
@@ -929,7 +1169,7 @@ fn main() {
         let ff = b.first_fail.clone();
         total.merge(b);
         if let Some((idx, fails)) = ff {
-            failing = Some((a.seed, idx, fails));
+            failing = Some((a.seed, idx, fails, Kind::ThinLattice));
         }
     }
     // thorough: systematic single-fault-position sweep over sampled values
@@ -939,7 +1179,7 @@ fn main() {
         let ff = b.first_fail.clone();
         total.merge(b);
         if let Some((idx, fails)) = ff {
-            failing = Some((a.seed, idx, fails));
+            failing = Some((a.seed, idx, fails, Kind::Sweep));
         }
     }
     let wall = t0.elapsed().as_secs_f64();
@@ -954,7 +1194,7 @@ fn main() {
         }
         exit = 2;
     }
-    if let Some((base, idx, fails)) = failing {
+    if let Some((base, idx, fails, fail_kind)) = failing {
         let replay_dir = out_dir.join("replays");
         let _ = std::fs::create_dir_all(&replay_dir);
         let mut seen = BTreeSet::new();
@@ -964,9 +1204,9 @@ fn main() {
                     continue;
                 }
                 nviol += 1;
-                let (min_case, steps) = minimise(&case, &v.class);
-                let final_v = has_class(&min_case.execute(), &v.class).unwrap_or(v.clone());
-                let (rec, bytes) = informational(&min_case);
+                let (min_step, steps) = minimise(&case, &v.class);
+                let final_v = has_class(&min_step.execute(), &v.class).unwrap_or(v.clone());
+                let (rec, bytes) = informational(&min_step.case);
                 let rf = ReplayFile {
                     property: PROPERTY.into(),
                     class: v.class.clone(),
@@ -975,10 +1215,13 @@ fn main() {
                     run_index: idx,
                     minimised: true,
                     shrink_steps: steps,
-                    case: min_case,
+                    history: min_step.history,
+                    case: min_step.case,
                     delivered_record: rec,
                     delivered_bytes: bytes,
-                    original_case: case.clone(),
+                    sequence: None,
+                    original_history: case.history.clone(),
+                    original_case: case.case.clone(),
                 };
                 let label = a.config_label.as_deref().map(|l| format!("-{l}")).unwrap_or_default();
                 let path = replay_dir.join(format!("{PROPERTY}{label}-{base}-{idx}-{}-{}.json", LEG_NAMES[leg], v.class));
@@ -1002,8 +1245,47 @@ fn main() {
                         Err(_) => false,
                     };
                     if !ok {
-                        eprintln!("HARNESS ERROR: minimised replay {} does not reproduce in a fresh process", path.display());
-                        exit = 2;
+                        // The violation needs state left behind by earlier operations of this process.
+                        // Reproduce it as a window of whole runs on one thread of a fresh process,
+                        // then shrink the window from the front.
+                        println!("  (the single operation does not fail in a fresh process: looking for the history it needs)");
+                        match find_sequence(base, fail_kind, idx, &a) {
+                            Some((spec, leg2, v2)) => {
+                                let rf2 = ReplayFile {
+                                    property: PROPERTY.into(),
+                                    class: v2.class.clone(),
+                                    detail: v2.detail.clone(),
+                                    base_seed: base,
+                                    run_index: spec.to,
+                                    minimised: true,
+                                    shrink_steps: 0,
+                                    history: Vec::new(),
+                                    case: case.case.clone(),
+                                    delivered_record: None,
+                                    delivered_bytes: None,
+                                    sequence: Some(spec.clone()),
+                                    original_history: case.history.clone(),
+                                    original_case: case.case.clone(),
+                                };
+                                if let Err(e) = std::fs::write(&path, serde_json::to_string_pretty(&rf2).unwrap() + "\n") {
+                                    eprintln!("HARNESS ERROR: cannot write replay file: {e}");
+                                    std::process::exit(2);
+                                }
+                                println!(
+                                    "violation class={} leg={} base_seed={base} run={} history=runs {}..={} on one thread (state-dependent)",
+                                    v2.class,
+                                    LEG_NAMES[leg2],
+                                    spec.to,
+                                    spec.from,
+                                    spec.to
+                                );
+                                println!("  {}", v2.detail);
+                            }
+                            None => {
+                                eprintln!("HARNESS ERROR: minimised replay {} does not reproduce in a fresh process, nor does the run sequence before it", path.display());
+                                exit = 2;
+                            }
+                        }
                     }
                 }
                 println!("VIOLATION property={PROPERTY} replay={}", path.display());
